@@ -178,6 +178,8 @@ def tensordot(a, b, axes=2, *, return_type=None):
                 axes_b[k] += ndb
     if not equal:
         raise ValueError("shape-mismatch for sum")
+    if len(set(axes_a)) != len(axes_a) or len(set(axes_b)) != len(axes_b):
+        raise ValueError("duplicate axes are not allowed in tensordot")
 
     # Move the axes to sum over to the end of "a"
     # and to the front of "b"
